@@ -231,14 +231,19 @@ func (dt *CommitDiffTable) LookupPartitions(ctx *sql.Context, lookup sql.IndexLo
 		ranges:   prollyRanges,
 	}
 
-	isDiffable, _, err := dp.isDiffablePartition(ctx)
-	if err != nil {
-		return nil, err
-	}
+	// A table that exists in the from commit and not in the to commit is diffable here: the two commits
+	// are named explicitly, every row is reported as removed (as dolt_diff() does). isDiffablePartition
+	// treats a missing to table as the end of a table's history, which only applies to dolt_diff_<table>.
+	if toTable != nil || fromTable == nil {
+		isDiffable, _, err := dp.isDiffablePartition(ctx)
+		if err != nil {
+			return nil, err
+		}
 
-	if !isDiffable {
-		ctx.Warn(PrimaryKeyChangeWarningCode, PrimaryKeyChangeWarning, dp.fromName, dp.toName)
-		return NewSliceOfPartitionsItr([]sql.Partition{}), nil
+		if !isDiffable {
+			ctx.Warn(PrimaryKeyChangeWarningCode, PrimaryKeyChangeWarning, dp.fromName, dp.toName)
+			return NewSliceOfPartitionsItr([]sql.Partition{}), nil
+		}
 	}
 
 	return NewSliceOfPartitionsItr([]sql.Partition{dp}), nil
